@@ -67,6 +67,8 @@ impl<'de> IDLDeserialize<'de> {
     where
         T: de::Deserialize<'de> + CandidType,
     {
+        // A previous value may have failed after a field name was selected.
+        self.de.field_name = None;
         let expected_type = self
             .de
             .table
